@@ -4,7 +4,7 @@
     [tk_step true max s t] for every thread [t], i.e. under EVERY schedule, for ANY number of
     threads and ANY queues.  Tie to the code: real OS threads through the cfg(callbag_verif)
     hooks under the token-passing scheduler, compared event by event with this model. *)
-From CB Require Import Threads ThreadSpec Inv_threads_take.
+From CB Require Import Threads ThreadSpec ThreadsFine ThreadsTakeMerge Inv_threads_take Inv_threads_takemerge.
 
 Theorem C19_safe max qs s :
   tk_reach max qs s ->
@@ -36,3 +36,53 @@ Theorem C19_unfixed_refuted :
     count is_begin_data (tks_tr s) = 2 /\ ~ count is_begin_data (tks_tr s) <= 1.
 Proof. exact take_threads_unfixed_refuted. Qed.
 Print Assumptions C19_unfixed_refuted.
+
+(** ** take(max) behind merge! of n member threads (ThreadsTakeMerge.v: the composition of the two
+    racing operators, compared with the crate step by step).  [xm_reach] closes the initial state under
+    [xm_step true max n s t] for every thread: every schedule; ANY number of members may fail. *)
+
+Theorem C19_takemerge_safe max n qs fins s :
+  xm_reach max n qs fins s ->
+  count is_begin_data (xms_tr s) <= max
+  /\ count is_begin_term (xms_tr s) <= 1
+  /\ (forall j, count (is_up_term_of j) (xms_tr s) <= 1)
+  /\ existsb is_panic (xms_tr s) = false.
+Proof. exact (@takemerge_safe max n qs fins s). Qed.
+Print Assumptions C19_takemerge_safe.
+
+(** once max data were delivered and everything is quiet the sink has been ended exactly once ... *)
+Theorem C19_takemerge_complete max n qs fins s :
+  1 <= max -> xm_reach max n qs fins s -> (forall t, t < n -> xm_finished s t = true) ->
+  max <= count is_begin_data (xms_tr s) -> count is_begin_term (xms_tr s) = 1.
+Proof. exact (@takemerge_complete max n qs fins s). Qed.
+Print Assumptions C19_takemerge_complete.
+
+(** ... and take has ended its upstream: every member was told to stop exactly once, or had ended by itself *)
+Theorem C19_takemerge_members_stopped max n qs fins s :
+  1 <= max -> xm_reach max n qs fins s -> (forall t, t < n -> xm_finished s t = true) ->
+  max <= count is_begin_data (xms_tr s) ->
+  forall j, j < n -> count (is_up_term_of j) (xms_tr s) = 1
+                     \/ (xm_q (xms_th s j) = [] /\ fins j <> FinNone /\ xms_stopped s j = false).
+Proof. exact (@takemerge_members_stopped max n qs fins s). Qed.
+Print Assumptions C19_takemerge_members_stopped.
+
+Theorem C19_takemerge_order max n qs fins s t :
+  xm_reach max n qs fins s -> is_prefix (delivered_by t (rev (xms_tr s))) (qs t) = true.
+Proof. exact (@takemerge_order max n qs fins s t). Qed.
+Print Assumptions C19_takemerge_order.
+
+Theorem C19_takemerge_driver_run max n qs fins nth sch fuel :
+  1 <= max ->
+  let s := run_full (xm_step true max n) xm_finished nth sch fuel (xm_init n qs fins) in
+  (forall t, t < n -> xm_finished s t = true) -> takemerge_check max (rev (xms_tr s)) = [].
+Proof. exact (@takemerge_driver_final max n qs fins nth sch fuel). Qed.
+Print Assumptions C19_takemerge_driver_run.
+
+(** the code before 7f77d2f (H11): a member failing while the delivery that reaches max is in progress
+    ends the sink twice *)
+Theorem C19_takemerge_unfixed_refuted :
+  let s := run_full (xm_step false 1 2) xm_finished 2 h11_sched 400 (xm_init 2 h11_qs h11_fins) in
+  (forall t, t < 2 -> xm_finished s t = true) /\ count is_begin_term (xms_tr s) = 2
+  /\ In TvSinkTermTwice (takemerge_check 1 (rev (xms_tr s))).
+Proof. exact takemerge_unfixed_refuted. Qed.
+Print Assumptions C19_takemerge_unfixed_refuted.
